@@ -25,7 +25,14 @@ unsafe impl Sync for Shared {}
 enum Op {
     Build { cfg: usize, cached: bool, scan: usize },
     ScanShared { input: usize },
+    /// one recorded scan, then `rounds` unrecorded scans of the same input that must all give the
+    /// same tokens (sustained overlap of scans on shared compiled data)
+    Rescan { shared: bool, input: usize, rounds: usize },
     Yield(u32),
+}
+
+fn scan_tokens(sc: &Scanner, text: &str) -> Vec<(usize, usize, usize)> {
+    sc.find_iter(text).map(|m| (m.token_type(), m.start(), m.end())).collect()
 }
 
 fn scan_events(sc: &Scanner, text: &str, sc_handle: usize, inp_id: usize, it_handle: usize, out: &mut Vec<Value>) {
@@ -52,7 +59,9 @@ pub fn main(args: &[String]) -> i32 {
     let max_threads: usize = args[3].parse().unwrap();
     std::fs::create_dir_all(out).unwrap();
     let mut r = StdRng::seed_from_u64(seed ^ 0xc14);
-    let prof = profile("c06");
+    // the mode graphs of the C06 profile, with lookaheads on a third of the patterns
+    let mut prof = profile("c06");
+    prof.la_prob = 0.35;
     let mut batch = Batch::new();
     let mut bad_keys: BTreeSet<String> = BTreeSet::new();
     let mut hangs = 0;
@@ -120,6 +129,13 @@ pub fn main(args: &[String]) -> i32 {
         let shared = Arc::new(Shared(ScannerBuilder::new().add_scanner_modes(&crate::parse::to_scanner_modes(&fam[0])).build().expect("shared scanner")));
         let n_threads = r.gen_range(2..=max_threads);
         let barrier = Arc::new(Barrier::new(n_threads));
+        let spin = Arc::new(std::sync::atomic::AtomicUsize::new(0));
+        // first-use rounds: configurations nobody has built yet (the shared one under fresh mode
+        // names: same behaviour, another cache key); in every round all threads build one of them
+        // through the cache at the same moment and scan at once
+        const ROUNDS: usize = 3;
+        let fresh: Arc<Vec<Vec<RealMode>>> = Arc::new((0..ROUNDS).map(|k| { let mut m = fam[0].clone(); m[0].name = format!("F{s}_{k}"); m }).collect());
+        let round_spin: Arc<Vec<std::sync::atomic::AtomicUsize>> = Arc::new((0..2 * ROUNDS).map(|_| std::sync::atomic::AtomicUsize::new(0)).collect());
         let (tx, rx) = mpsc::channel::<(usize, Vec<Value>)>();
         let fam = Arc::new(fam);
         let texts = Arc::new(texts);
@@ -127,19 +143,59 @@ pub fn main(args: &[String]) -> i32 {
         let inp_ids = Arc::new(inp_ids);
         for t in 0..n_threads {
             let n_ops = r.gen_range(2..=7);
-            let ops: Vec<Op> = (0..n_ops)
+            let mut ops: Vec<Op> = (0..n_ops)
                 .map(|_| match r.gen_range(0..10) {
                     0..=5 => Op::Build { cfg: r.gen_range(0..4), cached: r.gen_bool(0.8), scan: r.gen_range(0..3) },
                     6..=7 => Op::ScanShared { input: if r.gen_bool(0.7) { 2 } else { r.gen_range(0..3) } },
                     _ => Op::Yield(r.gen_range(1..20)),
                 })
                 .collect();
+            // every thread's FIRST call is a scan with compiled data nobody has used yet (the shared
+            // scanner, or its own scanner from the cache for the same modes): lazily initialised
+            // shared state is initialised under contention; and every thread ends with a burst of
+            // scans so that scans of different threads overlap for certain
+            ops.insert(0, if t % 2 == 0 { Op::ScanShared { input: 2 } } else { Op::Build { cfg: 0, cached: true, scan: 2 } });
+            ops.push(Op::Rescan { shared: t % 3 != 0, input: 2, rounds: 60 });
             let (barrier, tx, fam, texts, cfg_ids, inp_ids, shared) = (barrier.clone(), tx.clone(), fam.clone(), texts.clone(), cfg_ids.clone(), inp_ids.clone(), shared.clone());
+            let spin = spin.clone();
+            let (fresh, round_spin) = (fresh.clone(), round_spin.clone());
             std::thread::spawn(move || {
                 let mut ev: Vec<Value> = vec![];
                 let mut n_sc = 0usize;
                 let mut n_it = 0usize;
                 barrier.wait();
+                // ... and then spin until every thread is actually running
+                spin.fetch_add(1, std::sync::atomic::Ordering::SeqCst);
+                let t_spin = std::time::Instant::now();
+                while spin.load(std::sync::atomic::Ordering::SeqCst) < n_threads && t_spin.elapsed() < Duration::from_millis(200) {
+                    std::hint::spin_loop();
+                }
+                for k in 0..ROUNDS {
+                    round_spin[k].fetch_add(1, std::sync::atomic::Ordering::SeqCst);
+                    let t_spin = std::time::Instant::now();
+                    while round_spin[k].load(std::sync::atomic::Ordering::SeqCst) < n_threads && t_spin.elapsed() < Duration::from_millis(200) {
+                        std::hint::spin_loop();
+                    }
+                    let r = std::panic::catch_unwind(std::panic::AssertUnwindSafe(|| {
+                        let res = ScannerBuilder::new().add_scanner_modes(&crate::parse::to_scanner_modes(&fresh[k])).build();
+                        ev.push(json!({"op": "build", "cfg": cfg_ids[0], "cached": true, "ok": res.is_ok()}));
+                        // every thread holds its scanner now: the first scans start together
+                        round_spin[ROUNDS + k].fetch_add(1, std::sync::atomic::Ordering::SeqCst);
+                        let t_spin = std::time::Instant::now();
+                        while round_spin[ROUNDS + k].load(std::sync::atomic::Ordering::SeqCst) < n_threads && t_spin.elapsed() < Duration::from_millis(500) {
+                            std::hint::spin_loop();
+                        }
+                        if let Ok(sc) = res {
+                            n_sc += 1;
+                            n_it += 1;
+                            scan_events(&sc, &texts[k % 2], n_sc, inp_ids[0][k % 2], n_it, &mut ev);
+                        }
+                    }));
+                    if let Err(e) = r {
+                        ev.push(json!({"op": "panic", "msg": crate::exec::panic_msg(e)}));
+                        break;
+                    }
+                }
                 for op in ops {
                     let r = std::panic::catch_unwind(std::panic::AssertUnwindSafe(|| match &op {
                         Op::Yield(k) => {
@@ -152,6 +208,28 @@ pub fn main(args: &[String]) -> i32 {
                             n_sc += 1;
                             n_it += 1;
                             scan_events(&shared.0, &texts[*input], n_sc, inp_ids[0][*input], n_it, &mut ev);
+                        }
+                        Op::Rescan { shared: use_shared, input, rounds } => {
+                            let own;
+                            let sc: &Scanner = if *use_shared {
+                                ev.push(json!({"op": "share", "cfg": cfg_ids[0]}));
+                                &shared.0
+                            } else {
+                                own = ScannerBuilder::new().add_scanner_modes(&crate::parse::to_scanner_modes(&fam[0])).build().expect("cached build of the shared configuration");
+                                ev.push(json!({"op": "build", "cfg": cfg_ids[0], "cached": true, "ok": true}));
+                                &own
+                            };
+                            n_sc += 1;
+                            n_it += 1;
+                            let first = scan_tokens(sc, &texts[*input]);
+                            scan_events(sc, &texts[*input], n_sc, inp_ids[0][*input], n_it, &mut ev);
+                            let mut differing = 0;
+                            for _ in 0..*rounds {
+                                if scan_tokens(sc, &texts[*input]) != first {
+                                    differing += 1;
+                                }
+                            }
+                            ev.push(json!({"op": "rescan", "it": n_it, "rounds": rounds, "differing": differing}));
                         }
                         Op::Build { cfg, cached, scan } => {
                             let b = ScannerBuilder::new().add_scanner_modes(&crate::parse::to_scanner_modes(&fam[*cfg]));
